@@ -154,6 +154,13 @@ func (e *Engine) PlanOf(sql string) (desc string) {
 	if err != nil || p == nil {
 		return "plan-error"
 	}
+	if os.Getenv("VERIF_PLANTREE") != "" && strings.Contains(sql, os.Getenv("VERIF_PLANTREE")) {
+		fmt.Fprintln(os.Stderr, "PLAN FOR", sql)
+		old := os.Stdout
+		os.Stdout = os.Stderr
+		plans.PrintPlanTree(p, 0)
+		os.Stdout = old
+	}
 	return DescribePlan(p)
 }
 
